@@ -52,3 +52,51 @@ def diff(a, b):
 
 def arg_fp(args):
     return _val(args)
+
+
+def scan_sources(repo):
+    """syntactic scan of py_ecc/: randomness / clock / environment imports, `global`, os.urandom / getenv, and statements inside
+    functions that assign into or call a mutating method on a module-level name.  Returns (findings, allowed, n_files)."""
+    import ast
+    import os
+    bad = []
+    mutators = {"append", "extend", "insert", "pop", "remove", "clear", "update", "sort", "reverse", "setdefault", "popitem", "add", "discard"}
+    n_files = 0
+    for root, _, files in os.walk(os.path.join(repo, "py_ecc")):
+        for fn in sorted(files):
+            if not fn.endswith(".py"):
+                continue
+            n_files += 1
+            path = os.path.join(root, fn)
+            tree = ast.parse(open(path).read(), path)
+            top = {t.id for n in tree.body if isinstance(n, (ast.Assign, ast.AnnAssign)) for t in (n.targets if isinstance(n, ast.Assign) else [n.target]) if isinstance(t, ast.Name)}
+            for node in ast.walk(tree):
+                if isinstance(node, (ast.Import, ast.ImportFrom)):
+                    names = [a.name for a in node.names] + ([node.module] if isinstance(node, ast.ImportFrom) and node.module else [])
+                    for nm in names:
+                        if nm.split(".")[0] in ("random", "time", "secrets", "datetime", "uuid", "threading", "multiprocessing"):
+                            bad.append((path, node.lineno, "imports " + nm))
+                if isinstance(node, ast.Global):
+                    bad.append((path, node.lineno, "global " + ",".join(node.names)))
+                if isinstance(node, ast.Call) and isinstance(node.func, ast.Attribute) and isinstance(node.func.value, ast.Name) and node.func.value.id == "os" and node.func.attr in ("urandom", "getenv"):
+                    bad.append((path, node.lineno, "os." + node.func.attr))
+                if isinstance(node, ast.FunctionDef):
+                    local = {a.arg for a in node.args.args + node.args.kwonlyargs} | {n.id for n in ast.walk(node) if isinstance(n, ast.Name) and isinstance(n.ctx, ast.Store)}
+                    for n in ast.walk(node):
+                        tgt = None
+                        if isinstance(n, (ast.Assign, ast.AugAssign)):
+                            for t in (n.targets if isinstance(n, ast.Assign) else [n.target]):
+                                if isinstance(t, (ast.Subscript, ast.Attribute)) and isinstance(t.value, ast.Name):
+                                    tgt = t.value.id
+                        if isinstance(n, ast.Call) and isinstance(n.func, ast.Attribute) and n.func.attr in mutators and isinstance(n.func.value, ast.Name):
+                            tgt = n.func.value.id
+                        if tgt and tgt in top and tgt not in local:
+                            bad.append((path, getattr(n, "lineno", 0), "mutates module-level %s" % tgt))
+                        # class attributes written through cls / type(self) / a class name
+                        if isinstance(n, (ast.Assign, ast.AugAssign)):
+                            for t in (n.targets if isinstance(n, ast.Assign) else [n.target]):
+                                if isinstance(t, ast.Attribute) and isinstance(t.value, ast.Name) and t.value.id == "cls":
+                                    bad.append((path, getattr(n, "lineno", 0), "assigns class attribute cls.%s" % t.attr))
+    allowed = [b for b in bad if b[0].endswith("py_ecc/__init__.py")]
+    bad = [b for b in bad if b not in allowed]
+    return bad, allowed, n_files
